@@ -11,7 +11,29 @@ K_NOTE = ("Trusted base: clang-14 lowering, our IR->C translator (re-validated d
 R_NOTE = ("Trusted base: the printed RAM is what the interpreter/synthesiser execute (RAM executor validated concretely "
           "against the real interpreter on every run), our RAM semantics + reference least-model encoding, z3 4.x/5.x.")
 
+R_TECH = "translation validation: symbolic execution of the RAM printed by the real souffle over a symbolic fact database, z3 equivalence with an independent least-model reference; models replayed on the real binary"
+
+
+def R(text, ref, cat="translation_validation", tech=R_TECH):
+    return dict(engine="R", cat=cat, tech=tech, text=text, ref=ref, note=R_NOTE)
+
+
 CHECKS = {
+    "C01": R("For every corpus program (65 rule shapes: positive, recursive, negation, constraints, typed columns, functors, generators, "
+             "aggregates incl. empty sets, records, eqrel) the initial and transformed RAM emitted by the real souffle are proved equal to "
+             "the stratified least model for every database in the bound (U-mode: program constants + m distinct symbolic 32-bit values; "
+             "L-mode: <= n tuples of arbitrary 32-bit values).  The interpreter's dispatch loop itself is not encoded.", "DESIGN.md#c01"),
+    "C03": R("Transformed RAM for -j1/-j2/-j8 proved equal to the least model for every database in the bound; PARALLEL placement "
+             "obligations checked on every emitted program; finer interleavings are covered only through C30/C22/C29.", "DESIGN.md#c03", cat="other"),
+    "C04": R("Each optional AST pass disabled singly / all / random subsets, every eligible relation marked inline / no_inline: the RAM of "
+             "each variant is proved equal to the least model of the original program for every database in the bound.", "DESIGN.md#c04"),
+    "C05": R("Magic-set transformation on all relations, single relations, magic/no_magic qualifiers and exclusions: RAM of each variant "
+             "proved equal to the least model of the untransformed program for every database in the bound.", "DESIGN.md#c05"),
+    "C06": R("Each RAM transformer skipped singly through the SOUFFLE_VERIF hook (pairs and all in the thorough tier): resulting RAM, "
+             "initial RAM and fully optimised RAM proved equal to the least model for every database in the bound, including "
+             "inequality-index shapes over all 32-bit signed/unsigned values.", "DESIGN.md#c06"),
+    "C08": R("btree / brie / default representation variants and eqrel programs (closure defined by explicit rules in the reference) proved "
+             "equal to the least model for every database in the bound; K part: eqrel lookup sentinel logic.", "DESIGN.md#c08"),
     "C30": dict(engine="K", cat="model_checking", tech="bounded model checking (CBMC, SAT) of IR-derived C of the real lock, all interleavings of 3 clients",
                 text="Every role triple of {write, try-write, upgrade, abort, read} over the real OptimisticReadWriteLock methods is one CBMC query "
                      "over all interleavings of 3 clients (unwinding assertions on): single writer, validated reads, sound upgrades, abort "
